@@ -45,7 +45,7 @@ CLAIMED = {
              note="Trusted: pbt/readers/provjson.py and provxml.py (stdlib json / xml.etree only). Ambiguous bundle-identifier scope is not judged (counted).", ref="4 C10"),
  "C07": dict(technique="property-based round trip inside a constructively generated PROV-O-expressible subspace + exhaustively enumerated relation kind x argument mask x identified x attribute-class core; set-based oracle against unified()",
              text="Documents are constructed so that every clause of the statement's quantifier holds (a post-pass drops or adjusts records that would violate one, with counters); they are written as TriG and read back; any exception is a violation, and per container the set of strict canonical records must equal that of unified(). The relation matrix (15 kinds x optional masks x identified x 5 attribute classes) and element x value kind x slot matrix are enumerated in every run.",
-             note="Trusted: unified() (decided by C08), rdflib's TriG writer/parser; blank-node labels are pinned by the harness so that a case has one outcome. Two open known findings (F-C07-1, F-C07-2) are excluded by construction with counters.", ref="4 C07"),
+             note="Trusted: unified() (decided by C08), rdflib's TriG writer/parser; blank-node labels are pinned by the harness so that a case has one outcome. One open known finding (F-C07-1) is excluded by construction with a counter.", ref="4 C07"),
  "C16": dict(technique="property-based testing with a full per-document product over format x destination kind x source kind x detection mode; strict content oracle",
              text="For every generated document (intersection of the JSON/XML/RDF spaces, non-ASCII content) all 5 format variants are written to 4 destination kinds and compared, then read back from 5 source kinds with an explicit format and through prov.read from 3 source kinds with and without a format; every cell must reproduce the document's strict content (RDF: the unified set). Cell counters in the evidence show that no cell is empty.",
              note="Trusted: canon(); lxml C14N for XML text equality; rdflib isomorphism for RDF texts that differ only in blank-node labels. Plain file names only (C17 covers hostile names and faults). Format detection is also exercised in fresh child interpreters that have used at most one other format before prov.read().", ref="4 C16"),
